@@ -471,7 +471,20 @@ def run(ctx, ck) -> None:
                           f'the solver call takes {name}={show(kws.get(name))} instead of the captured self.config.{t[2]}', instance=name)
             opts = kws.get('options')
             copy_of_cfg = ('call', ('attr', ('attr', cfg_t, 'solver_options'), 'copy'), (), ())
-            good = opts == copy_of_cfg or (isinstance(opts, tuple) and opts[0] == 'call' and opts[1] == ('var', 'dict') and opts[2] == (('attr', cfg_t, 'solver_options'),))
+            raw_opts = ('attr', cfg_t, 'solver_options')
+
+            def fresh(t) -> bool:
+                if t == copy_of_cfg or (isinstance(t, tuple) and t[0] == 'call' and t[1] == ('var', 'dict') and t[2] == (raw_opts,)):
+                    return True
+                # d | {...}: a new dictionary when written as an expression; an update in place of d when written d |= {...}
+                if isinstance(t, tuple) and t[0] == 'binop' and t[1] == '|':
+                    if fresh(t[2]):
+                        return True
+                    in_place = any(ev[0] == 'stmt' and isinstance(ev[1], ast.AugAssign) and isinstance(ev[1].op, ast.BitOr) for ev in path.events)
+                    return not in_place and raw_opts in (t[2], t[3])
+                return False
+
+            good = fresh(opts)
             ck.expect('K7', good, call, 'options= is a copy of self.config.solver_options',
                       f'the solver call takes options={show(opts)} instead of a copy of the captured self.config.solver_options', instance='options')
         break
